@@ -1,6 +1,7 @@
 import CnlDriver.CS
 import CnlModel.Elastic
 import CnlModel.ElasticScaled
+import CnlModel.ElasticWide
 /-! `C05` table: elastic_integer operators over built-in narrowest types. -/
 namespace Cnl.Drv
 open Cnl Cnl.Elastic
@@ -67,21 +68,7 @@ def showHex5 (v : Int) : String :=
 
 def showENumX (x : ENum) : String := s!"el({x.digits},{x.narrowest.toString}):{showHex5 x.value}"
 
-/-- results that need multi-word storage: `wide_integer<digits, Narrowest>` is a two's-complement integer wide
-enough for the policy's digits (property C10), so the operator is exact; the type follows the same rule as for
-built-in storage -/
-def xBin (op : BinOp) (x y : ENum) : Res ENum :=
-  match binOp op x y with
-  | .ill _ =>
-    (match policy op x.digits x.narrowest.signed y.digits y.narrowest.signed with
-     | some (d, sg) => .ok ⟨d, ⟨max x.narrowest.bits y.narrowest.bits, sg⟩, exactBin op x.value y.value⟩
-     | none => .ill "no policy")
-  | r => r
-
-def xNeg (x : ENum) : Res ENum :=
-  match neg x with
-  | .ill _ => .ok ⟨x.digits, ⟨x.narrowest.bits, true⟩, -x.value⟩
-  | r => r
+-- results that need multi-word storage: `Elastic.xBin`, `Elastic.xNeg` (`CnlModel.ElasticWide`)
 
 /-- parse `el(D,N):hex` -/
 def parseElResX (res : String) : Option (Nat × Bool × Int) :=
@@ -161,7 +148,7 @@ def checkC05 (toks : List String) (res : String) : Option Verdict :=
       match parseElResX res with
       | some (d, sg, v) => some (v == exactBin op l r && withinDigits d sg v)
       | none => some false
-    some { model := showRes showENumX (xBin op x y), spec := spec, branch := "xbin/" ++ toks[1]!, nontrivial := guard }
+    some { model := showRes showENumX (Elastic.xBin op x y), spec := spec, branch := "xbin/" ++ toks[1]!, nontrivial := guard }
   | ["xcmp", op, dl, nl, dr, nr, l, r] => do
     let op ← parseCmpOp op; let dl ← dl.toNat?; let nl ← parseIntTy nl; let dr ← dr.toNat?; let nr ← parseIntTy nr
     let l ← parseIntX5 l; let r ← parseIntX5 r
@@ -181,7 +168,7 @@ def checkC05 (toks : List String) (res : String) : Option Verdict :=
       match parseElResX res with
       | some (d, sg, v) => some (v == -l && withinDigits d sg v)
       | none => some false
-    some { model := showRes showENumX (xNeg x), spec := spec, branch := "xneg", nontrivial := decide x.InRange }
+    some { model := showRes showENumX (Elastic.xNeg x), spec := spec, branch := "xneg", nontrivial := decide x.InRange }
   | ["scaledn", dl, nl, k, l] => do
     -- `_impl::scale<-k>` of an elastic_integer (elastic_integer/scale.h): the quotient by 2^k, truncated
     let dl ← dl.toNat?; let nl ← parseIntTy nl; let k ← k.toNat?; let l ← l.toInt?
